@@ -7,6 +7,7 @@ import GabiModel.Ops.Basic
 import GabiModel.Ops.KeysOps
 import GabiModel.Ops.Crypto
 import GabiModel.Ops.RevOps
+import GabiModel.Ops.Serial
 namespace Gabi.Ops
 open Lean Gabi Gabi.Wire
 
@@ -14,7 +15,8 @@ def handlers : List Handler := [
   Basic.handle,
   KeysOps.handle,
   Crypto.handle,
-  RevOps.handle
+  RevOps.handle,
+  Serial.handle
 ]
 
 def run (st : State) (op : String) (j : Json) : R (State × String) :=
